@@ -3,7 +3,7 @@
    property describes, oldest first, each event carrying index, window (offset, length) and decoded
    fields; histories are newest first, so "h followed by d" is [rev d ++ h]. *)
 From BS Require Import Impl.Visit Ref.MetaDefs Proofs.ImplRefLeaf Proofs.Transfer Proofs.Entries
-  Proofs.SpecLemmas Proofs.RefSpec Proofs.SpecTransfer Proofs.EvSound Proofs.EvTransfer.
+  Proofs.SpecLemmas Proofs.RefSpec Proofs.SpecTransfer Proofs.EvSound Proofs.EvTransfer Proofs.Examples.
 Open Scope N_scope.
 
 (* every valid input: the callbacks are exactly the traversal of the decoded structure *)
@@ -46,3 +46,11 @@ Proof. intros E S _. exact (T_failing_trace_is_prefix E S). Qed.
 Theorem C04_callbacks_describe_present_data : forall E, covered E -> forall brk p b h, e_D E b ->
   exists d, snd (e_visit E brk (sl p b) h) = rev d ++ h /\ Forall (ev_sound p b) d.
 Proof. exact T_ev_sound. Qed.
+
+(* non-vacuity: a well-formed three-transaction block (legacy, segwit, zero-input segwit) meets the hypotheses *)
+Example C04_example : specified E_block S_block /\ s_wf S_block ex_block /\ e_D E_block (s_enc S_block ex_block ++ ex_trailing) /\
+  exists pr h', e_visit E_block never (sl 3 (s_enc S_block ex_block ++ ex_trailing)) [] = (Ok pr, h').
+Proof.
+  split; [constructor|split; [exact ex_block_wf|split; [exact ex_block_InLen|]]].
+  destruct ex_block_visit as [pr [h' [H _]]]. exists pr, h'. exact H.
+Qed.
